@@ -207,6 +207,25 @@ def _guarded_one(i):
     return {'i': i, 'exp': front.txt(m['out']), 'got': got}
 
 
+_BC = None
+
+
+def _bytes_one(i):
+    """the same template with the inserted value given as a byte string: the text around it is untouched"""
+    c, m = _BC[i]
+    env = front.py_env(c['env'])
+    env['v'] = env['v'].encode('utf-8')
+    try:
+        got = front.template_class(c['syn'])(c['src'])(**env)
+        if isinstance(got, bytes):
+            got = got.decode('utf-8')
+        elif not isinstance(got, str):
+            got = repr(got)
+    except BaseException as e:  # noqa
+        got = 'RAISED %s: %s' % (type(e).__name__, str(e)[:100])
+    return {'i': i, 'exp': front.txt(m['out']), 'got': got}
+
+
 def fragment_cases(tier, rng):
     full = 3 if tier == 'quick' else 4
     alph = NEAR if tier == 'quick' else NEAR[:17] + [' ', '\n', 'x']
@@ -317,6 +336,19 @@ def main(tier):
         else:
             V.violation({'kind': 'departure', 'clause': 'only-when-rendered', 'syn': c['syn'], 'source': c['src'], 'env': c['env'],
                          'guard': c['guard'], 'expected': r['exp'], 'got': r['got'], 'family': 'guarded', 'cls': 'guarded'})
+    # bytes twins: skeletons that insert v, rendered with v as a byte string
+    global _BC
+    _BC = [(c, models[j]) for j, c in enumerate(cases) if c['fam'] == 'skeleton' and isinstance(c['env'].get('v'), str)
+           and ('var v' in c['src'] or '%(v)s' in c['src']) and models[j] is not None and models[j]['k'] == 'ok' and not models[j]['un']]
+    for r in common.pool_map(_bytes_one, range(len(_BC)), chunk=200, per_case=20):
+        if '_crash' in r or '_timeout' in r:
+            common.machinery_failure('harness crash: %s' % repr(r)[:1500])
+        c = _BC[r['i']][0]
+        if r['exp'] == r['got']:
+            V.count('bytes_renderings_conform')
+        else:
+            V.violation({'kind': 'departure', 'clause': 'verbatim', 'syn': c['syn'], 'source': c['src'], 'env': dict(c['env'], v='(as bytes)'),
+                         'expected': r['exp'], 'got': r['got'], 'family': 'skeleton-bytes', 'cls': 'verbatim-bytes'})
     # composition, decided by the machine's three renderings
     byi = {r['i']: r for r in results if 'i' in r}
     composed = skipped = 0
@@ -335,7 +367,7 @@ def main(tier):
                          'b': cases[off + ib]['src'], 'env': c['env'], 'got_a': ra['render'][1], 'got_b': rb['render'][1],
                          'got_ab': rab['render'][1], 'cls': 'composes'})
     cov = {'states': stats['states'], 'transitions': stats['transitions'],
-           'traces_validated_against_impl': V.counters.get('renderings_conform', 0) + V.counters.get('guarded_renderings_conform', 0),
+           'traces_validated_against_impl': V.counters.get('renderings_conform', 0) + V.counters.get('guarded_renderings_conform', 0) + V.counters.get('bytes_renderings_conform', 0),
            'sources': len(cases), 'tag_free_sources': tagfree, 'compositions_claimed': composed,
            'compositions_where_the_machine_does_not_compose': skipped, 'exhaustive': True,
            'actions_covered': stats['coverage'],
